@@ -551,6 +551,7 @@ func ruleC03(prog *Program, rep *Report) {
 	ruleBigLimitAgree(prog, rep) // the kind of value a number comes back as must not depend on the chunking
 	ruleSENFollow(prog, rep)
 	ruleMemberStore(prog, rep)
+	ruleBufView(prog, rep, 20, "oj", "gen", "sen") // a partial token kept as a view of the read buffer is overwritten by the next chunk
 	ruleReaderLoops(prog, rep)
 	ruleBufAlias(prog, rep, append(append([]feSpec{}, jsonFrontEnds...), senFrontEnds...)...)                            // with a view of the read buffer the result depends on the chunking
 	ruleEntryParity(prog, rep, "oj.Parser", "oj.Validator", "oj.Tokenizer", "gen.Parser", "sen.Parser", "sen.Tokenizer") // the []byte and the reader entry must start from the same state
